@@ -174,6 +174,17 @@ def splitLines (s : Str) : List Str := splitLinesAux s []
 /-- every line followed by a newline. -/
 def unlines (ls : List Str) : Str := ls.flatMap (fun l => l ++ [10])
 
+/-- line terminator: `\r\n` or `\n` -/
+def eol (crlf : Bool) : Str := if crlf then [13, 10] else [10]
+
+/-- The lines with freely chosen terminators: line `i` ends in `\r\n` iff `crlf[i]` (missing
+entries: `\n`); with `noFinal` the last line has no terminator at all.  `unlines` is the case
+"all `\n`, terminated". -/
+def renderLines : List Bool → Bool → List Str → Str
+  | _, _, [] => []
+  | cs, noFinal, [l] => l ++ (if noFinal then [] else eol (cs.headD false))
+  | cs, noFinal, l :: l2 :: r => l ++ eol (cs.headD false) ++ renderLines cs.tail noFinal (l2 :: r)
+
 /-- A `bufio.Scanner` positioned on a token: `cur` is `s.Text()` (empty once `Scan` has returned
 false), `rest` the lines not yet scanned. -/
 structure Scanner where
